@@ -138,6 +138,27 @@ def oracle(hist, records):
                     what = (f"build {bi}: task {c} was skipped as unchanged although the files matching its pattern changed since its last "
                             f"successful run: then {sorted(map(sorted, last[c][0]))} {last[c][1]}, now {sorted(map(sorted, cur_sets))} {cur_cont}")
                     bad.append(("rerun", what, "F11" if known else None))
+        # (7) a task whose declared inputs all exist is executed, not failed ("receives the files ... and is executed")
+        if not stopped:
+            for t, oc in reps:
+                if oc != "FAIL":
+                    continue
+                st = byid.get(t)
+                if st is None:                      # copy task base+n: its only input is file n
+                    base = max((b for b in perfile.values() if b <= t), default=None)
+                    excused = base is None or (t - base) not in rec["post"] or (t - base) not in rec["pre"]
+                elif st.get("gen"):
+                    nkids = len([k for k in spec["tasks"] if k.get("parent") == t])
+                    got_any = t in rline and any(rline[t][0])
+                    excused = st.get("fails") or (nkids == 0 and not (t in perfile and got_any))
+                else:
+                    need = list(st["deps"]) + ([st["cnt"]] if st.get("cnt") is not None else [])
+                    excused = st.get("fails") or any(d not in rec["post"] or d not in rec["pre"] and d in spec["inputs"] for d in need)
+                    crange = set().union(*[ranges[p] for p in st["pdeps"]]) if st["pdeps"] else set()
+                    # a matched file removed by an overlapping producer between the resolution and the read
+                    excused = excused or any(w in starts and r & crange for w, r in writers.items() if w != t and not set(byid[w]["pprods"]) & set(st["pdeps"]))
+                if not excused:
+                    bad.append(("fail", f"build {bi}: task {t} FAILED although all its declared inputs exist and its body does not raise; reports {reps}", None))
         # (6) generated copy tasks: unchanged => not executed again
         for g, base in perfile.items():
             for k in expected_kids.get(g, []):
@@ -190,7 +211,7 @@ def corpus():
 def histories(ctx):
     rng = ctx.rng
     hs = corpus()
-    for _ in range(ctx.scale(70, 700)):
+    for _ in range(ctx.scale(50, 600)):
         spec = pa.gen_spec(rng)
         hs.append({"tag": "rand", "spec": spec, "steps": pa.gen_steps(rng, spec)})
     return hs
